@@ -4,7 +4,7 @@
    The distribution of the C++ sampler itself (and that keys are binary) is measured, not modelled. *)
 From Coq Require Import ZArith List Lia.
 From TV Require Import Base.Int32 Ring.NegaRing Model.Numeric Model.Lwe Model.Tlwe Model.Gates Model.Encrypt
-  Proofs.Tlwe Proofs.Tgsw Proofs.Encrypt.
+  Proofs.Tlwe Proofs.Tgsw Proofs.Encrypt Model.Decomp Model.Tgsw Proofs.Decomp Proofs.BlindRotate Proofs.BootKey Proofs.TgswDecrypt Proofs.KeyGen.
 Import ListNotations.
 Local Open Scope Z_scope.
 
@@ -47,6 +47,23 @@ Theorem C07_tlwe_row : forall N, (0 < N)%nat -> forall key ds c r, Forall (lenN 
     eqNm N (PHv N key c) (ofl (map (gaussian32 0) gs)).
 Proof. exact tlwe_encrypt_zero_spec. Qed.
 Print Assumptions C07_tlwe_row.
+
+(* TGSW rows: tGswSymEncrypt* first fills every row with a fresh TLWE encryption of zero: each row is well formed, its phase is
+   the vector of its own converted Gaussian draws, and those draws occur in the stream that was consumed *)
+Theorem C07_tgsw_rows : forall N, (0 < N)%nat -> forall key k, wf_tkey N k key -> forall rows ds C r,
+  tgsw_encrypt_zero rows key N ds = Some (C, r) -> length C = rows /\ Forall (fresh_row N key k ds) C.
+Proof. exact tgsw_encrypt_zero_spec. Qed.
+Print Assumptions C07_tgsw_rows.
+
+(* bootstrapping key: element i is tGswSymEncryptInt of key bit s_i; when the converted Gaussian draws of the consumed stream are at
+   most eta in absolute value, every element acts on every accumulator like s_i up to beta(eta) = (k+1) l N (Bg/2) eta + (1+kN) 2^(32-l Bgbit):
+   exactly the hypothesis (good_key) under which C09's blind-rotation theorem and C04's bootstrapping theorem are proved *)
+Theorem C07_bootstrapping_key_rows : forall N, (0 < N)%nat -> forall key k, wf_tkey N k key ->
+  Forall (Forall (fun x => x = 0 \/ x = 1)) key -> forall l B, valid_layout l B -> forall eta, 0 <= eta ->
+  forall kin ds bk r, bounded eta ds -> Forall (fun s => s = 0 \/ s = 1) kin -> bk_rows l B key N kin ds = Some (bk, r) ->
+  good_key N key k l B bk kin (beta N k l B eta) /\ length bk = length kin.
+Proof. exact bk_rows_good_key. Qed.
+Print Assumptions C07_bootstrapping_key_rows.
 
 Example C07_nonvacuous :
   create_ks_key [1] [1;0] 1 1 [DG 3 10; DU 7; DU 9; DU 100] =
